@@ -191,5 +191,69 @@ Lemma exec_seq f ss1 ss2 s s1 tr1 :
   forall f2 r, exec f2 ss2 s1 = r -> r <> OutOfFuel ->
   exec (f + f2) (ss1 ++ ss2) s = prepend tr1 r.
 Proof.
-  intros H1 f2 r H2 N. eapply exec_app; eauto. rewrite H2. exact N.
+  intros H1 f2 r H2 N. eapply exec_app; eauto.
+Qed.
+
+(* ------------------------------------------------------------------ a small Hoare layer over exec *)
+(* with at least N units of fuel the block ends normally in a store satisfying Q *)
+Definition hoare (N : nat) (code : list stmt) (s : store) (Q : store -> Prop) : Prop :=
+  forall f, exists s2 tr, exec (N + f) code s = Ok s2 tr CNormal /\ Q s2.
+
+Lemma hoare_mono N M code s Q : (N <= M)%nat -> hoare N code s Q -> hoare M code s Q.
+Proof.
+  intros L H f. destruct (H (M - N + f)%nat) as [s2 [tr [E HQ]]].
+  replace (N + (M - N + f))%nat with (M + f)%nat in E by lia. eauto.
+Qed.
+
+Lemma hoare_conseq N code s (Q Q' : store -> Prop) :
+  (forall s2, Q s2 -> Q' s2) -> hoare N code s Q -> hoare N code s Q'.
+Proof. intros I H f. destruct (H f) as [s2 [tr [E HQ]]]. eauto. Qed.
+
+Lemma hoare_nil s (Q : store -> Prop) : Q s -> hoare 1 [] s Q.
+Proof. intros HQ f. exists s, []. split; [reflexivity | exact HQ]. Qed.
+
+Lemma hoare_assign x ix e s vs v (Q : store -> Prop) :
+  opt_all (map (eval s) ix) = Some vs -> eval s e = Some v -> Q (upd s (x, vs) v) ->
+  hoare 2 [SAssign x ix e] s Q.
+Proof.
+  intros E1 E2 HQ f. eexists. eexists. split; [|exact HQ].
+  change (2 + f)%nat with (S (S f)). apply exec_assign; assumption.
+Qed.
+
+Lemma hoare_app N1 N2 c1 c2 s (Q1 Q2 : store -> Prop) :
+  hoare N1 c1 s Q1 -> (forall s1, Q1 s1 -> hoare N2 c2 s1 Q2) -> hoare (N1 + N2) (c1 ++ c2) s Q2.
+Proof.
+  intros H1 H2 f. destruct (H1 0%nat) as [s1 [tr1 [E1 HQ1]]].
+  destruct (H2 s1 HQ1 f) as [s2 [tr2 [E2 HQ2]]].
+  exists s2, (tr1 ++ tr2). split; [|exact HQ2].
+  replace (N1 + N2 + f)%nat with ((N1 + 0) + (N2 + f))%nat by lia.
+  apply (exec_app_ok _ _ _ _ _ _ _ _ _ _ E1 E2).
+Qed.
+
+Lemma hoare_cons N1 N2 st rest s (Q1 Q2 : store -> Prop) :
+  hoare N1 [st] s Q1 -> (forall s1, Q1 s1 -> hoare N2 rest s1 Q2) -> hoare (N1 + N2) (st :: rest) s Q2.
+Proof. intros H1 H2. change (st :: rest) with ([st] ++ rest). eapply hoare_app; eauto. Qed.
+
+Lemma hoare_if N c th el s v (Q : store -> Prop) :
+  eval s c = Some v -> hoare (S N) (if v =? 0 then el else th) s Q -> hoare (S (S N)) [SIf c th el] s Q.
+Proof.
+  intros E H f. destruct (H f) as [s2 [tr [Ex HQ]]].
+  eexists. eexists. split; [|exact HQ].
+  change (S (S N) + f)%nat with (S (S (N + f))). rewrite (exec_if (N + f) c th el s v E).
+  change (S (N + f)) with (S N + f)%nat. rewrite Ex. reflexivity.
+Qed.
+
+Lemma hoare_do N x lo hi st body s l h t (P : nat -> store -> Prop) :
+  eval s lo = Some l -> eval s hi = Some h -> eval s st = Some t -> t <> 0 ->
+  (forall i s0, (i < trip_count l h t)%nat -> P i s0 ->
+     hoare (S N) body (upd s0 (x, []) (l + Z.of_nat i * t)) (P (S i))) ->
+  P 0%nat s ->
+  hoare (S (S N)) [SDo x lo hi st body] s
+        (fun s' => exists s2, P (trip_count l h t) s2 /\ s' = upd s2 (x, []) (l + Z.of_nat (trip_count l h t) * t)).
+Proof.
+  intros E1 E2 E3 T Hstep HP f.
+  destruct (exec_do_inv_rule (N + f) x lo hi st body s l h t P E1 E2 E3 T) as [s2 [tr [HP2 Ex]]].
+  - intros i s0 Hi HPi. destruct (Hstep i s0 Hi HPi f) as [s3 [tr3 [E HQ]]]. eauto.
+  - exact HP.
+  - eexists. eexists. split; [exact Ex|]. eauto.
 Qed.
